@@ -1,4 +1,4 @@
 From Coq Require Import Extraction ExtrOcamlBasic List NArith ZArith.
 From BioVerif Require Import Lib.Conv Model.Dijkstra Spec.DijkstraSpec.
 Extraction Language OCaml.
-Extraction "c35_model.ml" conv_anchor run new_topology tw graph_of weight is_path_b.
+Extraction "c35_model.ml" conv_anchor run run_seq spt new_topology tw graph_of weight is_path_b.
